@@ -240,6 +240,14 @@ func c17ExpectRequestHeaders(req *vfReq, injected []string) map[string]string {
 var c17RoutingSigs = map[string]bool{"c17:not-delivered": true, "c17:delivered-more-than-once": true, "c17:wrong-upstream": true, "c17:delivered-unexpectedly": true,
 	"c17:unrouted-not-404": true, "c17:trailing-slash-redirect": true, "c17:unclean-path-not-redirected": true, "c17:static-response": true, "c17:file-response": true, "c17:redirect-location-differs": true}
 
+func c17ListTokens(v string) string {
+	parts := strings.Split(v, ",")
+	for i := range parts {
+		parts[i] = strings.TrimSpace(parts[i])
+	}
+	return strings.Join(parts, ",")
+}
+
 type c17Judge struct {
 	run  *vfRun
 	w    *vfWorld
@@ -321,8 +329,11 @@ func (j *c17Judge) judgeRequestCommon(s *c17Set, u *c17Up, c *c17Case, req *vfRe
 		switch {
 		case !ok:
 			add("c17:request-header-lost", "header %s (sent %q) did not reach the upstream", k, want)
-		case len(v) != 1 || v[0] != want:
-			add("c17:request-header-changed", "header %s arrived as %q, expected %q", k, v, want)
+		case k == "X-Forwarded-For" && c17ListTokens(strings.Join(v, ",")) == c17ListTokens(want):
+			// a comma-separated list: white space around the commas is not significant
+		case strings.Join(v, ",") != want:
+			// (separate lines in the original order are as faithful as the documented comma-joined form)
+			add("c17:request-header-changed", "header %s arrived as %s, expected %q", k, vfTrunc(fmt.Sprintf("%q", v), 300), vfTrunc(want, 300))
 		}
 		delete(got, k)
 	}
